@@ -225,6 +225,10 @@ pub enum TlsConnectionError<E> {
     #[error("No domain found in URI")]
     NoDomain,
 
+    /// The host of the URI can not be used as a TLS server name.
+    #[error("Host {0:?} is not a valid TLS server name")]
+    InvalidDomain(String),
+
     /// The TLS feature is disabled, but TLS was requested.
     #[error("TLS is not enabled, can't connect to https")]
     TlsDisabled,
